@@ -49,6 +49,10 @@ func c11Input(c *Ctx, j int) (src string, opts *distiller.Options, paging bool, 
 	switch j % 4 {
 	case 0, 1:
 		pg := genPager(r, true)
+		if j%8 == 1 {
+			pg = genTiePager(r) // shapes with several equally plausible readings
+			return pg.HTML, &distiller.Options{OriginalURL: mustURL(pg.PageURL), PaginationAlgo: distiller.PageNumber}, true, "pager"
+		}
 		return pg.HTML, &distiller.Options{OriginalURL: mustURL(pg.PageURL), PaginationAlgo: distiller.PaginationAlgo(j / 4 % 2)}, true, "pager"
 	case 2:
 		prof := fullProfile()
